@@ -111,12 +111,14 @@ SeqV(a, decl) ==
 Verdict(a, decl) ==
   IF a.k = "seq" THEN SeqV(a, decl) ELSE ItemV(a, ElemDecl(decl, 1))
 
-\* the declaration of the result: a dimension, or "the same as parameter 1"
-\* (if that argument is zero / infinite / NaN it has no dimension to compare with: left open)
+\* the declaration of the result: a dimension, or "the same as parameter 1".  The reference is then a value:
+\* a bare zero / infinity / NaN matches anything, so every result passes; a zero / infinite / NaN *quantity*
+\* still carries a dimension label of its own - whether that label counts is left open
 ResultV(c) ==
   CASE c.r.rk = "none" -> {"pass"}
     [] c.r.rk = "dim"  -> Verdict(c.r.res, c.r.rd)
-    [] c.r.rk = "same" -> IF IsAnyC(c.args[1].c) THEN AllOutcomes
+    [] c.r.rk = "same" -> IF IsAnyC(c.args[1].c) /\ c.args[1].k = "num" THEN {"pass"}   \* a bare 0 / inf / NaN matches anything
+                          ELSE IF IsAnyC(c.args[1].c) THEN AllOutcomes
                           ELSE Verdict(c.r.res, [k |-> "one", d |-> IF c.args[1].k = "num" THEN D1 ELSE c.args[1].d])
 
 -----------------------------------------------------------------------------
